@@ -304,7 +304,7 @@ pub fn run(ctx: &Ctx, rep: &mut Report) {
     rep.rule = "generated arrival sequences of distinct ESIs for one block: K in 1..=60 weighted (up to 300 quick / 600 thorough), a generated number of source symbols (none, all, K-1, or uniform) plus repair ESIs from the near / uniform-24-bit / far classes, K + overhead symbols in total with overhead in {0,1,2,3} U {H-2..H+3} U {S+H} U {H+3..H+8} (the latter straddle the trigger of the binary-only fast path), in shuffled / source-first / repair-first order, decoder back-end default / sparse / dense. After EVERY packet: decode(..).is_some() <=> (all K source symbols received) or (rank of the RFC constraint matrix for the received set = L), with the rank computed by an independent incremental GF(256) elimination over reference-generated rows; Some implies the right bytes. Large blocks (K' up to 2000 quick / 10000 thorough) are checked at selected set sizes with a structured rank routine (bit-packed GF(2) elimination + GF(256) residual of the HDPC rows). Non-trivial = a sequence with a prefix of >= K distinct symbols and a source symbol missing; distinct by (K, T, sequence).".into();
     rep.assumptions.push("rank oracle rows come from the reference model (trusted tables); exact incremental oracle for K <= 600, structured rank up to K' = 10000; beyond that only C01's soundness applies".into());
     let kmax = ctx.tier.pick(300u32, 600);
-    let n = std::env::var("C02_N").ok().and_then(|s| s.parse().ok()).unwrap_or(ctx.tier.pick(60_000u64, 1_200_000));
+    let n = std::env::var("C02_N").ok().and_then(|s| s.parse().ok()).unwrap_or(ctx.tier.pick(200_000u64, 2_000_000));
     rep.absorb("prefixes", run_sharded("C02", "prefixes", ctx.seed, n, 64, move || strategy(kmax), check, to_json, signature));
 
     // large blocks
